@@ -282,6 +282,12 @@ class SigWorld(object):
                 msg = pgpy.PGPMessage.new(bytes.fromhex(st['data']), compression=C.CompressionAlgorithm(st.get('compression', 0)),
                                           format='b')
                 signers = [key] + [k for n, k in sorted(self.keys.items()) if n != st['key']][:st.get('nsigners', 1) - 1]
+                if st.get('cosign_subkey'):
+                    # the same certificate signs twice: its signing subkey first, then the primary key
+                    subs = [sk for sk in key.subkeys.values() if sk.key_algorithm.can_sign]
+                    if subs:
+                        msg |= subs[0].sign(msg, **kw)
+                        self.ctx.probe('message_cosigned_by_own_subkey')
                 for s in signers:
                     msg |= s.sign(msg, **kw)
                 art.subject = {'t': 'msg', 'bytes': bytes(msg)}
